@@ -213,7 +213,13 @@ func (s *SencBox) ParseReadBox(perSampleIVSize byte, saiz *SaizBox) error {
 			s.perSampleIVSize = perSampleIVSize
 		}
 
-		s.IVs = make([]InitializationVector, 0, s.SampleCount)
+		if uint64(perSampleIVSize)*uint64(s.SampleCount) > uint64(nrBytesLeft) {
+			return fmt.Errorf("senc: %d samples with %d-byte IVs do not fit in %d bytes",
+				s.SampleCount, perSampleIVSize, nrBytesLeft)
+		}
+		if perSampleIVSize != 0 {
+			s.IVs = make([]InitializationVector, 0, s.SampleCount)
+		}
 		switch perSampleIVSize {
 		case 0:
 			// Nothing to do
